@@ -281,6 +281,24 @@ func execute(r *core.Run, c *Case) {
 			var rs *sims.RemoteSigner
 			if opNames[op] == "signEarlyFail" {
 				req, rs = mkReq("F", time.Time{}, payloadOf("F")) // no signing time: rejected before the signer is used
+				ev := i
+				for _, o := range c.Ops {
+					ev += 2 * o
+				}
+				if mt == sims.JWS && ev%3 == 1 {
+					// variant: everything in order except that something follows the
+					// payload's JSON object
+					req.SigningTime = sims.SignTime
+					req.Payload.Content = append(append([]byte{}, payloadOf("F")...), []byte{'}', ']', ' '}[ev%2])
+					r.Count("early-fail-trailing-bytes-after-the-payload-object", 1)
+				}
+				if mt == sims.JWS && ev%3 == 2 {
+					// variant: an extended attribute named like the expiry header the
+					// request does not use
+					req.SigningTime = sims.SignTime
+					req.ExtendedSignedAttributes = append(req.ExtendedSignedAttributes, signature.Attribute{Key: "io.cncf.notary.expiry", Critical: true, Value: "2099-01-01T00:00:00Z"})
+					r.Count("early-fail-attribute-named-like-an-unused-header", 1)
+				}
 			} else {
 				// the signer is used, the result is rejected afterwards
 				req, rs = mkReq("F", time.Date(2010, 1, 1, 0, 0, 0, 0, time.UTC), payloadOf("F")) // before the leaf's NotBefore
